@@ -16,7 +16,7 @@ const (
 	rC05Pkg   = "ORDABS.package-prefixing"
 	rC05Class = "ORDABS.edb-idb-classification"
 	rC05Two   = "ORDABS.two-map-orders"
-	rC05Sort  = "TABLE.deterministic-order-option"
+	rC05Sort  = "ORDABS.deterministic-order-option"
 )
 
 var pipelinePkgs = []string{"analysis", "ast", "builtin", "engine", "factstore", "functional", "interpreter", "packages", "provenance", "rewrite", "symbols", "unionfind"}
@@ -26,7 +26,7 @@ func checkC05(c *core.Ctx) {
 	c.Rule(rC05Pkg, "Package.Clauses, evaluated on a packaged unit whose rule bodies contain every literal kind, prefixes the head and every body predicate the package defines (atoms, negated atoms, temporal literals around either, temporal atoms) and leaves other predicates alone", 1)
 	c.Rule(rC05Class, "Analyzer.Analyze, evaluated with its checks stubbed out on the same clauses in different orders (a fact of a predicate before and after a rule for it), classifies predicates as extensional or intensional identically: a predicate with a rule is intensional only", 1)
 	c.Rule(rC05Two, "Stratify and makeDeltaRules give the same result under ascending and descending map iteration order (evaluated in C03 / C01's rules, repeated here)", 2)
-	c.Rule(rC05Sort, "the deterministic-order option sorts the predicates of each stratum and the delta-rule predicates", 2)
+	c.Rule(rC05Sort, "EvalStratifiedProgramWithStats and (*engine).eval, evaluated with the deterministic-order option under ascending and under descending map iteration: the predicates listed for each stratum and the sequence of rule evaluations in the fixpoint loop are the same", 2)
 	mapOrderRule(c, rC05Map, pipelinePkgs)
 	c05Packages(c)
 	c05Classification(c)
@@ -220,14 +220,114 @@ func c05Classification(c *core.Ctx) {
 	c.Check(bad == "", rC05Class, f.Name, f.Decl.Pos(), "same classification for three clause orders", bad)
 }
 
+// c05SortOption decides the deterministic-order option by its effect, not by the text of the code: with the option
+// set, the order in which the engine evaluates rules and lists the predicates of a stratum must not depend on the
+// iteration order of Go maps (evaluated once ascending, once descending).
 func c05SortOption(c *core.Ctx) {
-	for _, t := range []struct{ fn, what string }{{"EvalStratifiedProgramWithStats", "stats.Strata"}, {"engine.eval", "deltaRulePreds"}} {
-		f := c.MustFunc(rC05Sort, "engine", t.fn)
-		if f == nil {
-			continue
+	// (a) the predicates of each stratum
+	if f := c.MustFunc(rC05Sort, "engine", "EvalStratifiedProgramWithStats"); f != nil {
+		k := &astKit{c: c, ok: true}
+		run := func(reverse, det bool) (string, error) {
+			in := ordabs.New(c.Prog)
+			in.InstallTimeStubs()
+			in.ReverseMaps = reverse
+			in.Stubs["time.Now"] = func(in *ordabs.Interp, _ ordabs.Value, _ []ordabs.Value) ([]ordabs.Value, error) {
+				return []ordabs.Value{ordabs.TimeVal{NS: 100}}, nil
+			}
+			in.Stubs["engine.newEvalOptions"] = func(in *ordabs.Interp, _ ordabs.Value, _ []ordabs.Value) ([]ordabs.Value, error) {
+				o := k.zero("engine", "EvalOptions")
+				o.Fields["externalPredicates"] = ordabs.NewMap()
+				o.Fields["deterministicOrder"] = det
+				return []ordabs.Value{o}, nil
+			}
+			for _, n := range []string{"factstore.FactStore", "factstore.ReadOnlyFactStore"} {
+				in.Stubs[n+".EstimateFactCount"] = func(in *ordabs.Interp, _ ordabs.Value, _ []ordabs.Value) ([]ordabs.Value, error) {
+					return []ordabs.Value{int64(0)}, nil
+				}
+			}
+			in.Stubs["factstore.NewMultiIndexedArrayInMemoryStore"] = func(in *ordabs.Interp, _ ordabs.Value, _ []ordabs.Value) ([]ordabs.Value, error) {
+				return []ordabs.Value{&ordabs.Obj{Name: "delta", Opaque: true}}, nil
+			}
+			seen := "evalStrata not reached"
+			in.Stubs["engine.engine.evalStrata"] = func(in *ordabs.Interp, recv ordabs.Value, _ []ordabs.Value) ([]ordabs.Value, error) {
+				seen = "?"
+				if eo, _ := recv.(*ordabs.Obj); eo != nil {
+					if st, ok := eo.Fields["stats"].(*ordabs.Rec); ok {
+						if sl, _ := st.Fields["Strata"].(*ordabs.Slice); sl != nil {
+							var layers []string
+							for _, l := range *sl.Elems {
+								var names []string
+								if ls, _ := l.(*ordabs.Slice); ls != nil {
+									for _, p := range *ls.Elems {
+										names = append(names, fmt.Sprint(p.(*ordabs.Rec).Fields["Symbol"]))
+									}
+								}
+								layers = append(layers, strings.Join(names, ","))
+							}
+							seen = strings.Join(layers, " | ")
+						}
+					}
+				}
+				return []ordabs.Value{nil}, nil
+			}
+			pts := ordabs.NewMap()
+			for i, n := range []string{"c", "a", "d", "b"} {
+				sym := predSym(n, 1)
+				pts.M[ordabs.KeyString(sym)], pts.Keys[ordabs.KeyString(sym)] = int64(i/3), sym
+			}
+			pi := k.zero("analysis", "ProgramInfo")
+			pi.Fields["Decls"] = ordabs.NewMap()
+			strata := []ordabs.Value{nil, nil}
+			opt := []ordabs.Value{}
+			_, err := in.Call(f, nil, []ordabs.Value{&ordabs.Obj{Name: "pi", Fields: pi.Fields}, &ordabs.Slice{Elems: &strata}, pts, &ordabs.Obj{Name: "store", Opaque: true}, &ordabs.Slice{Elems: &opt}})
+			return seen, err
 		}
-		src := core.SrcFull(c.Prog.Fset, f.Decl.Body)
-		ok := strings.Contains(src, "deterministicOrder") && strings.Contains(src, "sort.Slice("+t.what)
-		c.Check(ok, rC05Sort, f.Name+":"+t.what, f.Decl.Pos(), "sorted under the deterministic-order option", "the deterministic-order option no longer sorts "+t.what)
+		asc, err1 := run(false, true)
+		desc, err2 := run(true, true)
+		free, err3 := run(true, false)
+		if runORD(c, rC05Sort, f.Name+":strata", f, err1) && runORD(c, rC05Sort, f.Name+":strata", f, err2) && runORD(c, rC05Sort, f.Name+":strata", f, err3) && k.ok {
+			okSet := sortedCSV(asc) == "a,c,d | b" || sortedCSV(asc) == "a,c,d|b"
+			c.Check(asc == desc && okSet && sortedCSV(free) == sortedCSV(asc), rC05Sort, f.Name+":strata", f.Decl.Pos(),
+				fmt.Sprintf("with the option the predicates of each stratum are listed as [%s] under both map orders (without it: [%s])", asc, free),
+				fmt.Sprintf("with the deterministic-order option the predicates of each stratum are listed as [%s] under ascending and [%s] under descending map iteration (without the option: [%s]); want the same list, holding a,c,d in stratum 0 and b in stratum 1", asc, desc, free))
+		}
 	}
+	// (b) the order of delta-rule evaluations in the fixpoint loop
+	if f := c.MustFunc(rC05Sort, "engine", "engine.eval"); f != nil {
+		prog := absPrograms()[3] // mutual recursion: delta rules for two head predicates
+		run := func(reverse bool) (string, bool) {
+			e := newEngineFix(c, rC05Sort, prog, 0)
+			if e == nil {
+				return "", false
+			}
+			e.in.ReverseMaps = reverse
+			e.engine.Fields["options"].(*ordabs.Rec).Fields["deterministicOrder"] = true
+			_, _, returned, err := e.runEval(f, 400000)
+			if !runORD(c, rC05Sort, f.Name+":delta-rule-order", f, err) {
+				return "", false
+			}
+			if !returned {
+				c.Unres(rC05Sort, f.Name+":delta-rule-order", f.Decl.Pos(), "the loop did not return within the evaluation budget")
+				return "", false
+			}
+			return strings.Join(e.trace, " "), true
+		}
+		asc, ok1 := run(false)
+		desc, ok2 := run(true)
+		if ok1 && ok2 {
+			c.Check(asc == desc && asc != "", rC05Sort, f.Name+":delta-rule-order", f.Decl.Pos(),
+				"with the option the sequence of rule evaluations (rule/delta position) is the same under both map orders",
+				fmt.Sprintf("with the deterministic-order option the rules of program %s are evaluated in the order [%s] under ascending and [%s] under descending map iteration", prog.name, asc, desc))
+		}
+	}
+}
+
+func sortedCSV(s string) string {
+	layers := strings.Split(s, " | ")
+	for i, l := range layers {
+		ns := strings.Split(l, ",")
+		sort.Strings(ns)
+		layers[i] = strings.Join(ns, ",")
+	}
+	return strings.Join(layers, " | ")
 }
